@@ -296,3 +296,15 @@ def from_real(M, sel, names):
     if cls in ("AndSel", "OrSel"):
         return getattr(S, cls)(from_real(M, sel.s1, names), from_real(M, sel.s2, names))
     raise CannotEncode(f"selection class {cls}")
+
+
+_MODEL = {}
+
+
+def get_model(cm_module):
+    """one Model per process (z3 recursive functions can be defined once)"""
+    k = id(cm_module)
+    if k not in _MODEL:
+        _MODEL[k] = Model(cm_module)
+    return _MODEL[k]
+
